@@ -853,18 +853,25 @@ Proof.
 Qed.
 Print Assumptions c06_rtsp_any_join_gate.
 
-(* the GOP-start test looks at packets of the VIDEO track only (lal fix b536578):
-   on the pinned tree an Opus packet whose first payload byte reads as an IRAP
-   slice header (0xae = H.265 type 23) ended the wait, and the player was sent
-   the video from the middle of a GOP *)
+(* the GOP-start test looks at packets of the VIDEO track only (lal fix 871e5a0; the same defect as C02's F-34,
+   found independently when c06.e2e started to run with OutWaitKeyFrameFlag): on the pinned tree
+   ([rtp_is_boundary false], [run_pinned] of Group/GroupFanout.v) an Opus packet whose first payload byte reads as an
+   IRAP slice header (0xae = H.265 type 23) ended the wait, and the player was sent the video from the middle of a GOP *)
 Definition opus_like_irap : bytes := [128; 97; 0; 1; 0; 0; 3; 192; 0; 0; 0; 0; 174; 1; 2].
+Definition hevc_non_irap : bytes := [128; 96; 0; 2; 0; 0; 46; 224; 17; 34; 51; 68; 2; 1; 208; 9].
+Definition hevc_vsh_msg : rmsg := mk_rmsg 9 0 [28; 0; 0; 0; 0; 1].
 Theorem c06_rtsp_wait_audio_pinned_refuted :
-  GF.rtp_pt opus_like_irap = Some 97 /\
-  GF.rtp_is_boundary_pinned GF.VHevc opus_like_irap = true /\ GF.rtp_is_boundary GF.VHevc opus_like_irap = false /\
-  forall v raw, GF.rtp_is_video raw = true -> GF.rtp_is_boundary v raw = GF.rtp_is_boundary_pinned v raw.
+  GF.rtp_pt opus_like_irap = Some 97 /\ GF.rtp_is_video 97 = false /\
+  GF.rtp_is_boundary false GF.VHevc 97 opus_like_irap = true /\ GF.rtp_is_boundary true GF.VHevc 97 opus_like_irap = false /\
+  (forall v raw, GF.rtp_is_boundary true v 96 raw = GF.rtp_is_boundary false v 96 raw) /\
+  let cf := RF.fan_cfg 0 true in
+  let h := [GF.EvInStart; GF.EvPublish hevc_vsh_msg; GF.EvSdp GF.VHevc; GF.EvJoin GF.KRtsp 1; GF.EvPlay 1;
+            GF.EvRtp opus_like_irap; GF.EvRtp hevc_non_irap] in
+  option_map GF.c_out (GP.find_sub (GF.run_pinned cf h) 1) = Some [GF.LSdp 0; GF.LRtp 0; GF.LRtp 1] /\
+  option_map GF.c_out (GP.find_sub (GF.run cf h) 1) = Some [GF.LSdp 0].
 Proof.
-  split; [vm_compute; reflexivity|]. split; [vm_compute; reflexivity|]. split; [vm_compute; reflexivity|].
-  intros v raw H. destruct v; cbn [GF.rtp_is_boundary GF.rtp_is_boundary_pinned]; rewrite ?H; reflexivity.
+  split; [vm_compute; reflexivity|]. split; [reflexivity|]. split; [vm_compute; reflexivity|]. split; [vm_compute; reflexivity|].
+  split; [intros v raw; destruct v; reflexivity|]. vm_compute. split; reflexivity.
 Qed.
 Print Assumptions c06_rtsp_wait_audio_pinned_refuted.
 
